@@ -64,7 +64,11 @@ IMatch(R, m, meth, S, d, parts, vals, hm) ==
           ELSE IF sl # {} THEN
                (IF StrictOf(m, R[MinOf(sl)]) THEN [kind |-> "slashreq", r |-> 0, vals |-> <<>>, hm |-> hm2]
                 ELSE [kind |-> "rule", r |-> MinOf(sl), vals |-> vals, hm |-> hm2])
-          ELSE None(hm2)
+          ELSE \* no usable rule for this method one slash further: the non-strict ones there admit the
+               \* path as it is, only the method is wrong (matcher repair after F19: they are counted)
+               None(hm2 \cup (IF Variant = "orig" THEN {}
+                              ELSE UNION {MethodsOf(R[i]) : i \in {j \in T : Len(IP(j)) = d + 1 /\ ~Compat(j)
+                                                                          /\ Usable(j) /\ ~StrictOf(m, R[j])}}))
   ELSE
        LET part == parts[1]
            T == StaticChild(part)
